@@ -2,7 +2,7 @@
 // Public API of the crate only.  Mirror of coq/Model/OpsRobust.v (which answers from the decoder alone).
 //
 //   parsed_ops [@sizes] <tx|block|prefix|header> <hex>
-//       deserialize_partial::<T>; on success every public operation offered on the parsed value is run
+//       crate::ops_codec::dp::<T>; on success every public operation offered on the parsed value is run
 //       (serialize, hash / Hashable, Block::id / tx_root / serialize_hashable, ExtraField::try_parse and
 //       RawExtraField::try_parse, RawExtraField::from(parsed extra) when the extra parsed completely,
 //       Display formatting of the object and of its parts, check_outputs with a fixed view pair and the index
@@ -125,7 +125,7 @@ fn block_ops(b: &Block) {
 fn parsed_ops(ty: &str, b: &[u8]) -> Option<String> {
     macro_rules! go {
         ($t:ty, $f:expr) => {
-            match deserialize_partial::<$t>(b) {
+            match crate::ops_codec::dp::<$t>(b) {
                 Ok((x, _)) => {
                     $f(&x);
                     "OK".to_string()
@@ -182,15 +182,15 @@ fn scan_tx(tx: &Transaction, maj: Range<u32>, min: Range<u32>) -> usize {
 fn parsed_scan(ty: &str, b: &[u8], maj: Range<u32>, min: Range<u32>) -> Option<String> {
     let found;
     match ty {
-        "tx" => match deserialize_partial::<Transaction>(b) {
+        "tx" => match crate::ops_codec::dp::<Transaction>(b) {
             Ok((x, _)) => found = scan_tx(&x, maj, min),
             Err(_) => return Some("ERR".into()),
         },
-        "block" => match deserialize_partial::<Block>(b) {
+        "block" => match crate::ops_codec::dp::<Block>(b) {
             Ok((x, _)) => found = scan_tx(&x.miner_tx, maj, min),
             Err(_) => return Some("ERR".into()),
         },
-        "prefix" => match deserialize_partial::<TransactionPrefix>(b) {
+        "prefix" => match crate::ops_codec::dp::<TransactionPrefix>(b) {
             Ok((x, _)) => found = scan_prefix(&x, None, maj, min),
             Err(_) => return Some("ERR".into()),
         },
